@@ -305,6 +305,15 @@ func runC03(c *Ctx) {
 				}
 				c.count("very_large_claims")
 			}
+			// a scope put together by hand, its kind left at the zero value: if Encode takes it, the decoders give it back as it was
+			if ac, ok := cl.(*jwt.AccountClaims); ok && i > perKind+1 && i%8 == 5 {
+				if ac.SigningKeys == nil {
+					ac.SigningKeys = jwt.SigningKeys{}
+				}
+				k := newSigner("account").pub
+				ac.SigningKeys[k] = &jwt.UserScope{Key: k, Role: "kind left at zero"}
+				c.count("hand_built_scope_kind_zero")
+			}
 			tok, err := cl.Encode(s.kp)
 			c.sum.Evaluations++
 			if err != nil {
